@@ -97,6 +97,9 @@ func init() {
 		// mt=old: files that are prepared and then moved into place (rename / symlink styles) carry a modification time in
 		// the past (cp -p, rsync -t, tar -x, a pair restored from a backup): metadata is no part of what is served
 		oldTimes := false
+		// sp=<n>: how the configured paths are SPELLED (what -cert-filename / $CERT_DIR end up as): the same files named
+		// with a doubled separator, a "." element, or a "x/.." detour; the file operations use the clean spelling
+		spell := 0
 		stamp := func(p string) {
 			if oldTimes {
 				t0 := time.Date(2001, 2, 3, 4, 5, 6, 0, time.UTC)
@@ -108,11 +111,26 @@ func init() {
 				oldTimes = true
 			} else if strings.HasPrefix(t, "style=") {
 				style = t[6:]
+			} else if strings.HasPrefix(t, "sp=") {
+				fmt.Sscanf(t[3:], "%d", &spell)
 			} else if strings.HasPrefix(t, "steps=") {
 				steps = strings.Split(t[6:], ",")
 			}
 		}
 		ce := &certEnv{pairs: map[int][2][]byte{}}
+		spelled := func(dir, base string) string {
+			switch spell {
+			case 1:
+				return dir + "//" + base
+			case 2:
+				return dir + "/./" + base
+			case 3:
+				return dir + "/../" + filepath.Base(dir) + "/" + base
+			case 4:
+				return dir + "/" + base // (clean, absolute) control
+			}
+			return filepath.Join(dir, base)
+		}
 		e2eHookCertLayout = func(dir string) (string, string) {
 			ce.dir = dir
 			p0 := ce.pair(0)
@@ -130,7 +148,7 @@ func init() {
 				os.WriteFile(ce.certPath, p0[0], 0o600)
 				os.WriteFile(ce.keyPath, p0[1], 0o600)
 			}
-			return ce.certPath, ce.keyPath
+			return spelled(dir, "tls.crt"), spelled(dir, "tls.key")
 		}
 		env := newE2EEnv(defaultE2EOpts())
 		e2eHookCertLayout = nil
@@ -322,6 +340,10 @@ func init() {
 				mt = " mt=old"
 				c.tag("installed-files-carry-old-mtimes")
 			}
+			if r.chance(1, 3) {
+				mt += fmt.Sprintf(" sp=%d", 1+r.intn(3))
+				c.tag("configured-path-not-clean")
+			}
 			c.op(fmt.Sprintf("cert style=%s steps=%s%s", style, strings.Join(steps, ","), mt))  // oracle: the property
 			c.op(fmt.Sprintf("certm style=%s steps=%s%s", style, strings.Join(steps, ","), mt)) // correspondence: code + inotify contract
 		}
@@ -333,6 +355,13 @@ func init() {
 			c.tag("installed-files-carry-old-mtimes")
 			c.op("cert style=" + st + " mt=old")
 			c.op("certm style=" + st + " mt=old")
+		}
+		for sp := 1; sp <= 3; sp++ {
+			c.tag("configured-path-not-clean")
+			for _, st := range []string{"inplace steps=wc1,wk1", "rename steps=rk1,rc1", "symlink steps=S1"} {
+				c.op(fmt.Sprintf("cert style=%s sp=%d", st, sp))
+				c.op(fmt.Sprintf("certm style=%s sp=%d", st, sp))
+			}
 		}
 		// the documented finding D17: swap of the symlinked directory WITHOUT deleting the old one
 		c.op("cert style=symlink steps=S1,s2")
